@@ -145,9 +145,55 @@ def run(chk):
                    json.dumps({"case": {k: c[k] for k in ("tes",)}, "diffs": diffs})[:3000])
     else:
         chk.oblige("correspondence model = implementation (per-group covered sets, disjointness, lengths)", not diff_only)
+    unit_translated(chk, r)
     for c in cases[:2]:
         chk.sample({"tes": c["tes"][:6], "n_tes": len(c["tes"]), "features": c.get("features")})
     return chk.finish(rule=RULE)
+
+
+def unit_translated(chk, r):
+    """The translator's reading of the pandas idioms, exercised: single groups with index labels in an order of their own through the real
+    ReviseAnno.call_merge() and through the TRANSLATED gen_call_merge (vm_compute); output rows compared one by one, labels included."""
+    n = 150 if chk.tier == "quick" else 3000
+    groups = []
+    for _ in range(n):
+        c = gen.gen_pair(r, max_chrom=1, max_genes=2, max_tes=24)
+        ivs = [(t["start"], t["stop"]) for t in c["tes"]][:r.randint(1, 24)]
+        labels = r.sample(range(5 * len(ivs) + 3), len(ivs))
+        groups.append([[l, s, e] for l, (s, e) in zip(labels, ivs)])
+    reps = pool.run_requests([{"op": "revise.unit", "groups": groups[i:i + 50]} for i in range(0, len(groups), 50)], timeout=240)
+    real = []
+    for rep in reps:
+        real += rep["results"] if rep.get("ok") else [None] * 50
+    real = real[:len(groups)]
+    def frame(rows):
+        return "[" + "; ".join("(%s, (%s, %s))" % (common.zlit(l), common.zlit(s), common.zlit(e)) for l, s, e in rows) + "]"
+    exprs = []
+    for g, rr in zip(groups, real):
+        S = frame(rr["sorted"]) if rr else "[]"
+        exprs.append("match gen_call_merge (2 * %d + 1) (mkR %s %s []) with Ok st => 0 :: Z.of_nat (length (seed st)) :: Z.of_nat (length (search st)) :: "
+                     "flat_map (fun r => [row_label r; row_start r; row_stop r]) (out st) | Raised => [1] | OutOfFuel => [2] end" % (len(g), S, S))
+    try:
+        flats = common.coq_eval("c02unit", "From TEV Require Import Model.Frame Gen.GenRevise.", "", exprs, chunk=50)
+        chk.oblige("translated recursion evaluated (vm_compute) on every single-group frame", True)
+    except Exception as e:
+        chk.oblige("translated recursion evaluated (vm_compute) on every single-group frame", False, str(e)[-1500:])
+        return
+    nd, first = 0, None
+    for g, rr, f in zip(groups, real, flats):
+        if rr is None:
+            continue
+        chk.cov["evaluations"] += 1
+        chk.count("unit_frames_rows<=%d" % (8 * ((len(g) + 7) // 8)))
+        if rr["outcome"] == "ok":
+            want = [0, rr["seed_left"], rr["search_left"]] + [x for row in rr["rows"] for x in row]
+        else:
+            want = [1]
+        if f != want:
+            nd += 1
+            first = first or {"group_sorted": rr["sorted"], "real": rr, "translated": f}
+    chk.oblige("translated recursion = real ReviseAnno.call_merge on every single-group frame, row by row with labels (%d frames, %d differ)" % (len(groups), nd),
+               nd == 0, json.dumps(first)[:2500] if first else "")
 
 
 def replay(chk, rp):
